@@ -344,12 +344,15 @@ class BaseParser:
         self.attr_alias_map = attr_alias_map
         self.case_insensitive_names = case_insensitive_names
 
-        for key, field in self.fields.items():
-            field.apply_fields(
+        for key, field in list(self.fields.items()):
+            applied = field.apply_fields(
                 self.fields,
                 # excluded_vars=self.exclude_vars,
                 alias_map=alias_map,
             )
+            if applied is not field:
+                # taken over from a base class and resolved differently here: this parser's own copy
+                self.fields[key] = applied
 
     @property
     def __ref__(self):
